@@ -6,7 +6,7 @@ from props import Prop, register, mk, mutate, budget
 import tgen, refcbor, forms
 from tgen import T, BYTE_TYPES, TAGGED, TYPED_TYPES, INTS, WIDE, TEXTS, reg_values, registry
 from forms import vsx, parse, render, canon_nan
-from props_streams import dec_ops, head_variants, int_encodings, C02, lenbytes
+from props_streams import dec_ops, head_variants, int_encodings, C02, lenbytes, tag_wraps, all_tags
 
 # ===================================================================== C14
 @register
@@ -14,7 +14,7 @@ class C14(Prop):
     pid = 'C14'
     def gen(self, seed, tier):
         r = random.Random(seed); g = T(seed, valid=0.95); ops = []
-        tags = [16, 17, 18, 96, 97, 98, 15, 19, 95, 99, 0, 2, 3, 24, 55799, 2**32, 2**64 - 1]
+        tags = [16, 17, 18, 96, 97, 98, 15, 19, 95, 99, 0, 2, 3, 24, 55799, 2**32, 2**64 - 1] + [t for t in all_tags() if t not in (16, 17, 18, 96, 97, 98, 15, 19, 95, 99, 0, 2, 3, 24, 55799, 2**32)]
         for t, tag in TAGGED.items():
             for _ in range(budget(tier, 60, 1200)):
                 body = g.venc(g.wire(t))
@@ -41,6 +41,17 @@ class C14(Prop):
                 for t2 in TAGGED:
                     if t2 != t and r.random() < 0.4:
                         ops.append(mk('dect %s b%s' % (t2, (refcbor.head(6, tag) + body).hex()), k='cross', t=t2, must_reject=True))
+            # bodies whose uninterpreted values are not what the crate's own encoder would write — indefinite-length strings and maps, short
+            # bignums (definite and indefinite), floats of every width, NaN payloads, non-shortest heads, nested tags: the tagged decoder
+            # yields exactly what the untagged one yields (informed round 10: the tag content re-serialised and parsed a second time)
+            for xv in ('c25f4105ff', 'c35f50' + 'ff' * 16 + 'ff', 'c24105', 'c249010000000000000000', '5f4101420203ff', '7f616161' + '62ff', 'bf0001ff', '9f0102ff', 'f97e01', 'fa7fc00001', 'fb7ff8000000000001', 'f93c00', 'fa3f800000',
+                       '1800', '190001', '1a00000001', '1b0000000000000001', '3800', '5800', '7800', '9800', 'b800', 'd818' + '4100', 'c1c11a6553f100', 'd9d9f780', '82c25f4105ff' + 'c35f4100ff', 'a1c25f4105ff00'):
+                for hm in ('a11863' + xv, 'a2044131' + '1863' + xv):
+                    hb = bytes.fromhex(hm)
+                    for body in ({'CoseSign1': b'\x84\x40' + hb + b'\xf6\x40', 'CoseMac0': b'\x84\x40' + hb + b'\xf6\x40', 'CoseEncrypt0': b'\x83\x40' + hb + b'\xf6', 'CoseSign': b'\x84\x40' + hb + b'\xf6\x81\x83\x40' + hb + b'\x40',
+                                  'CoseEncrypt': b'\x84\x40' + hb + b'\xf6\x81\x83\x40' + hb + b'\xf6', 'CoseMac': b'\x85\x40' + hb + b'\xf6\x40\x81\x83\x40' + hb + b'\xf6'}[t],):
+                        ops.append(mk('dec %s b%s' % (t, body.hex()), k='odd-untagged', body=body.hex(), t=t, base=True))
+                        ops.append(mk('dect %s b%s' % (t, (refcbor.head(6, tag) + body).hex()), k='odd-tagged', body=body.hex(), t=t, tagnum=tag))
             for _ in range(budget(tier, 80, 1500)):
                 x = g.typed(t, wild=False)
                 ops.append(mk('enct %s %s' % (t, x), k='enct', t=t, form=x)); ops.append(mk('enc %s %s' % (t, x), k='enc', t=t, form=x))
@@ -118,9 +129,25 @@ class C15(Prop):
                 ea = refcbor.encode(('int', a)).hex(); eb = refcbor.encode(('int', b)).hex()
                 for t, hx in (('ClaimsSet', 'a2' + ea + '01' + eb + '02'), ('Header', 'a2' + ea + '01' + eb + '02'), ('CoseKey', 'a3' + ea + '01' + eb + '02' + '0101')):
                     ops.append(mk('dec %s b%s' % (t, hx), k='pair', n=a, m=b, t=t))
+        # the same integer at several positions of one value at once: each comes out exactly (informed round 10: issued-at dropped when
+        # expiration, not-before and issued-at coincide — no sweep of one position at a time, no independent sampling makes them equal)
+        for n in lattice:
+            if not (-2**63 <= n <= 2**63 - 1): continue
+            e = refcbor.encode(('int', n)).hex()
+            for t, hx, cnt in (('ClaimsSet', 'a304' + e + '05' + e + '06' + e, 3), ('ClaimsSet', 'a204' + e + '05' + e, 2), ('ClaimsSet', 'a205' + e + '06' + e, 2), ('ClaimsSet', 'a204' + e + '06' + e, 2),
+                               ('ClaimsSet', 'a404' + e + '05' + e + '06' + e + '08' + e, 3)):
+                ops.append(mk('chain %s b%s' % (t, hx), k='same', n=n, cnt=cnt, wire=hx))
+            for t, hx in (('Header', 'a201' + e + '1863' + e), ('CoseKey', 'a30101' + '03' + e + '1863' + e), ('PartyInfo', '83f6' + e + 'f6'), ('CoseKdfContext', '84' + e + '83f6' + e + 'f683f6' + e + 'f682' + ('00' if n < 0 else e) + '40')):
+                ops.append(mk('chain %s b%s' % (t, hx), k='same-other', n=n, wire=hx))
         return ops
     def impl_pred(self, o, impl):
         m = o['meta']; n = m['n']; pos = m['k']
+        if pos == 'same':
+            if not impl.startswith('ok '): return 'a claims set whose timestamps are all the in-range integer %d was refused' % n
+            if impl.split(' ok ')[0].count('W%d ' % n) + impl.split(' ok ')[0].count('W%d)' % n) != m['cnt']: return 'not every timestamp of a claims set holding the same integer at each came out exactly'
+            if not impl.endswith(' ok b' + m['wire']): return 'a claims set holding the same integer at every timestamp does not encode back to its (deterministic) input'
+            return None
+        if pos == 'same-other': return None      # compared with the proved model
         if pos == 'pair':
             typed = {'ClaimsSet': range(1, 8), 'Header': range(1, 8), 'CoseKey': range(1, 6)}[m['t']]
             if n in typed or m['m'] in typed: return None
@@ -179,8 +206,24 @@ class C16(Prop):
             if len(ps) > budget(tier, 600, 20000): ps = r.sample(ps, budget(tier, 600, 20000))
             for a, b in ps: ops.append(mk('cmp %s:%s %s %s' % (kind, reg, a, b), k='reg', a=a, b=b))
         return ops
+    def child_ops(self, tier):
+        """texts beyond 2^24 bytes (implementation only; the oracle is the order of the encodings, computed here): lengths that agree modulo
+        2^24 (or 2^16, 2^8) but differ, against a content order that goes the other way (informed round 10: lengths compared after `<< 40`)"""
+        out = []
+        for la, ca, lb, cb in ((1, 'b', (1 << 24) + 1, 'a'), (5, 'b', (1 << 24) + 5, 'a'), (3, 'c', (1 << 16) + 3, 'a'), (300, 'b', (1 << 24) + 300, 'a')) + (((1 << 24) + 2, 'b', (1 << 25) + 2, 'a'),) * (tier == 'thorough'):
+            for x, y in (((la, ca), (lb, cb)), ((lb, cb), (la, ca))):
+                ta = 't' + (x[1].encode() * x[0]).hex(); tb = 't' + (y[1].encode() * y[0]).hex()
+                out.append(mk('cmp Label %s %s' % (ta, tb), k='huge-label', op_='cmp', x=list(x), y=list(y), timeout=120, gen='text labels of %d x %r and %d x %r' % (x[0], x[1], y[0], y[1])))
+                out.append(mk('cmpc %s %s' % (ta, tb), k='huge-label', op_='cmpc', x=list(x), y=list(y), timeout=120, gen='text labels of %d x %r and %d x %r' % (x[0], x[1], y[0], y[1])))
+        return out
     def impl_pred(self, o, impl):
         m = o['meta']
+        if m.get('k') == 'huge-label':
+            ea = refcbor.encode(('text', m['x'][1].encode() * m['x'][0])); eb = refcbor.encode(('text', m['y'][1].encode() * m['y'][0]))
+            if m['op_'] == 'cmpc': return None if impl == lenlex(ea, eb) else 'cmp_canonical differs from length-first order of the encodings (texts of %d and %d bytes)' % (m['x'][0], m['y'][0])
+            parts = impl.split(' ')
+            if len(parts) != 3 or parts[0] != lex(ea, eb): return 'cmp differs from bytewise order of the deterministic encodings (texts of %d and %d bytes): %s' % (m['x'][0], m['y'][0], impl[:30])
+            return None
         if impl in ('panic', 'bad-partial'): return 'comparison panicked or partial_cmp disagrees with cmp'
         def enc(x):
             if x[0] in 'AP': return refcbor.encode(('int', int(x[1:])))
@@ -225,6 +268,17 @@ class C17(Prop):
                     e = refcbor.encode(('text', t.encode())).hex()
                     ops.append(mk('dec RegLabel:%s b%s' % (name, e), k='numeric-text', reg=name, text=t))
                     if name in privnames: ops.append(mk('dec RegLabelPriv:%s b%s' % (name, e), k='numeric-text', reg=name, text=t))
+        # "text labels are always kept": every text of the shared alphabet — the empty one, padded ones, look-alikes — at every registry type
+        # and at every field typed by one (informed round 10: a guard `if !t.is_empty()` on the text arm)
+        for tb in TEXTS + [b' ', b'\x00', b'a' * 300]:
+            e = refcbor.encode(('text', tb)).hex()
+            for name, rows in regs:
+                ops.append(mk('dec RegLabel:%s b%s' % (name, e), k='numeric-text', reg=name, text=tb.decode()))
+                if name in privnames: ops.append(mk('dec RegLabelPriv:%s b%s' % (name, e), k='numeric-text', reg=name, text=tb.decode()))
+            ops += [mk('chain Header ba101' + e, k='field-text'), mk('chain CoseKey ba2010403' + e, k='field-text'), mk('chain CoseKey ba101' + e, k='field-text'), mk('chain ClaimsSet ba1' + e + '07', k='field-text'),
+                    mk('chain ClaimsSet ba20161616' + e[1:] + '07' if False else 'chain ClaimsSet ba2016161' + e + '07', k='field-text'), mk('chain Header ba10281' + e, k='field-text'), mk('chain CoseKey ba201040481' + e, k='field-text'),
+                    mk('chain CoseKdfContext b84' + e + '83f6f6f683f6f6f6820040', k='field-text'), mk('chain CoseSign1 b8440a101' + e + 'f640', k='field-text'),
+                    mk('chain CoseSign1 b84' + refcbor.head(2, 2 + len(e) // 2).hex() + 'a101' + e + 'a0f640', k='field-text')]
         for i in list(range(-65540, -65530)) + [-7, 8, 0]:
             e = refcbor.encode(('int', i)).hex()
             ops += [mk('dec Header ba101' + e, k='field'), mk('dec CoseKey ba2010103' + e, k='field'), mk('dec ClaimsSet ba1' + e + 'f6', k='field'), mk('dec Header ba10281' + e, k='field'), mk('dec CoseKey ba101' + e, k='field')]
@@ -296,6 +350,19 @@ class C18(Prop):
                 ops.append(mk('dec CoseKdfContext b' + refcbor.encode(('array', a_)).hex(), k='wrapped'))
             ops.append(mk('dec SuppPubInfo b' + refcbor.encode(w_).hex(), k='wrapped')); ops.append(mk('dec PartyInfo b' + refcbor.encode(w_).hex(), k='wrapped'))
             ops.append(mk('dec ClaimsSet b' + refcbor.encode(w_).hex(), k='wrapped')); ops.append(mk('dec CoseKeySet b' + refcbor.encode(('array', [w_])).hex(), k='wrapped'))
+        # a valid encoding under a tag — any registered one, the CWT tag included — is not the structure (informed round 10)
+        for t, body in (('ClaimsSet', 'a10163616263'), ('ClaimsSet', 'a0'), ('ClaimsSet', 'a3041a6553f1000262737508a101a10102'), ('CoseKdfContext', '840183f6f6f683f6f6f682188040'), ('PartyInfo', '83f6f6f6'), ('PartyInfo', '8341610541ff'),
+                        ('SuppPubInfo', '82188040'), ('SuppPubInfo', '83188043a1012641aa')):
+            for w_ in tag_wraps(bytes.fromhex(body)):
+                ops.append(mk('dec %s b%s' % (t, w_.hex()), k='tag-wrapped', must_reject=True))
+            for tg in all_tags(): ops.append(mk('fromv %s (tag %d %s)' % (t, tg, vsx(refcbor.decode(bytes.fromhex(body))[1])), k='tag-wrapped', must_reject=True))
+        # … nor is a tagged item in a slot of one
+        for tg in (1, 2, 24, 61, 55799):
+            tb = refcbor.head(6, tg).hex()
+            for hx in ('84' + tb + '0183f6f6f683f6f6f682188040', '8401' + tb + '83f6f6f683f6f6f682188040', '840183f6f6f6' + tb + '83f6f6f682188040', '840183f6f6f683f6f6f6' + tb + '82188040', '840183f6f6f683f6f6f682' + tb + '188040',
+                       '840183f6f6f683f6f6f6821880' + tb + '40'):
+                ops.append(mk('dec CoseKdfContext b' + hx, k='tag-slot'))
+            for hx in ('83' + tb + '4161f6f6', '83f6' + tb + '05f6', '83f6f6' + tb + '4161'): ops.append(mk('dec PartyInfo b' + hx, k='tag-slot'))
         for _ in range(budget(tier, 3000, 60000)):
             def party():
                 n = r.choice([3, 3, 3, 3, 0, 1, 2, 4, 5]); return ('array', [r.choice(slot[:5] if r.random() < 0.8 else slot) for _ in range(n)])
@@ -320,6 +387,11 @@ class C18(Prop):
             t = r.choice(['ClaimsSet', 'CoseKdfContext', 'PartyInfo', 'SuppPubInfo'])
             ops.append(mk('enc %s %s' % (t, g.typed(t)), k='enc:' + t))
         return ops
+
+def _c18_pred(self, o, impl):
+    if o['meta'].get('must_reject') and impl.startswith('ok'): return 'a tagged item was accepted where the structure itself (a map / an array) is required'
+    return None
+C18.impl_pred = _c18_pred
 
 # ===================================================================== C19
 @register
